@@ -44,6 +44,8 @@ RelocateReal(s, offs, len, res) ==
                 /\ \A k \in 1..7 : SameBytes(Comps(u)[k], Comps(a)[k], d)
                 /\ a.type = u.type /\ a.portno = u.portno
                 /\ res.Long = PFObs([o |-> DeclLong(u).o + d, l |-> DeclLong(u).l])
+                \* ... and so does the short view (scheme .. host / port of the moved URI)
+                /\ res.Short = PFObs([o |-> DeclLong(DeclTrunc(u)).o + d, l |-> DeclLong(DeclTrunc(u)).l])
            /\ len < Len(s) => (~res.ok /\ a = u)
 
 Holds(rec) ==
